@@ -22,6 +22,7 @@ META["explanation"] += ' The waker-list inventory (R02.3 wake all, R02.4 full dr
 META["explanation"] += ' Also evaluated here: the ready-buffer rules (R13.1, R13.3, R13.5-R13.8) - returning Pending whenever the source is Pending is right only because nothing is parked in the ready buffer across such a return (batched containers cannot buffer). The typestate runs on combinator-desugared bodies and has the locally-owned-input clause (see C02).'
 META["explanation"] += " Poll functions that build Pending without polling anything (other than eyeball's audited poll leaf) are included: their Pending is reported as not caused by an input (a hand-rolled waker list whose wake discipline no rule verifies)."
 META["explanation"] += ' Shared with C08: R08.2 / R08.4 (one long-lived Sender that is never cloned, moved out or kept from being dropped - mem::forget / ptr::read around the vector leave the channel open and parked streams are never woken). Termination memories (see C09 R09.18) are understood by the typestate.'
+META["explanation"] += " R14.2 plumbing-forwards-the-context: the future wrappers excluded from the typestate poll the wrapped future with the caller's context itself (not one rebuilt around a remembered waker)."
 
 
 def run(ctx):
@@ -34,7 +35,22 @@ def run(ctx):
         if f.crate == EY and "async_lock" not in f.path:
             continue
         if f.path.startswith("reusable_box::") or "ReusableBoxRecvFuture" in f.path or "make_recv_future" in f.path:
-            continue  # plumbing: forwards the boxed future's poll unchanged
+            # plumbing: forwards the boxed future's poll unchanged - which is checked, not assumed: the inner poll gets the caller's
+            # context itself (not one rebuilt around a waker remembered from an earlier poll: the task may poll with another waker
+            # next time, and the boxed future would keep waking the stale one)
+            if f.kind != "coroutine":
+                pb = wakers.poll_body(F, f)
+                cxp = wakers.cx_param(pb)
+                for blk, t in sites:
+                    if not wakers.is_poll_call(t):
+                        continue
+                    cx_args = [a for a in t["args"] if a["k"] in ("move", "copy") and "task::Context<" in pb.locals[a["place"]["l"]]["ty"]] or [t["args"][-1]]
+                    x = strip(pb.expr_of_op(cx_args[0]))
+                    ok = x[0] == "param" and x[1] == cxp
+                    ctx.verdict(ok, "R14.2", f, "plumbing-forwards-the-context", pb.line_at((blk, 10 ** 6)), "the wrapped future is polled with the caller's context itself",
+                                "`%s` polls the future it wraps with `%s` instead of the context it was given: the waker registered with the channel is not (necessarily) the one of the current poll - "
+                                "a task that polls with a different waker the second time is never woken" % (f.path, fmt(pb.expr_of_op(cx_args[0]), 4)[:160]))
+            continue
         n += 1
         wakers.check_poll_fn(ctx, "R14.1", f, sites)
         wakers.check_rearm(ctx, "R14.3", f, sites)
